@@ -223,6 +223,120 @@ def reg_tables(src):
     return out
 
 
+def wrapper_table(src):
+    """every HAND-WRITTEN wrapper closure of register_fn.rs (outside the two macros):
+    (key, arity checked before the host function is called, args indices read, in order of appearance).
+    key = '<Engine|BuiltInModule>:<marker type>:<register_fn|register_owned_fn>'"""
+    cut = src.find("macro_rules! impl_register_fn ")
+    if cut < 0:
+        cut = src.find("macro_rules! impl_register_fn{")
+    if cut < 0:
+        raise Broken("impl_register_fn! not found")
+    head = src[:cut]
+    impls = []
+    for m in re.finditer(r"^impl<", head, re.M):
+        i = head.index("{", head.index(" for ", m.start()))
+        hdr = re.sub(r"\s+", " ", head[m.start():i])
+        mm = re.search(r"RegisterFn(?:Borrowed)?<FN, (.*), \w+> for (\w+)\s*$", hdr)
+        if not mm:
+            continue
+        impls.append((m.start(), i, mm.group(2), re.sub(r"\s+", "", mm.group(1))))
+    out = []
+    for m in re.finditer(r"let f = move \|args: &\[SteelVal\]\|", head):
+        own = [x for x in impls if x[0] < m.start()]
+        if not own:
+            raise Broken("a wrapper closure outside any RegisterFn impl")
+        _, _, target, marker = own[-1]
+        fns = list(re.finditer(r"fn (register_fn|register_owned_fn|register_fn_borrowed)\b", head[own[-1][0]:m.start()]))
+        if not fns:
+            raise Broken("a wrapper closure outside register_fn / register_owned_fn")
+        fn = fns[-1].group(1)
+        flat = re.sub(r"\s+", " ", block_at(head, head.index("{", m.end())))
+        f = flat.find("func(")
+        if f < 0:
+            raise Broken("wrapper %s:%s does not call the host function" % (target, marker))
+        am = re.search(r"if (!args\.is_empty\(\)|args\.len\(\) != (\d+)) \{ stop!\(ArityMismatch", flat)
+        if not am or am.start() > f:
+            raise Broken("wrapper %s:%s does not check the arity before calling the host function" % (target, marker))
+        arity = int(am.group(2)) if am.group(2) else 0
+        idxs = []
+        for ix in re.findall(r"args\[([^\]]*)\]", flat):
+            if not ix.strip().isdigit():
+                raise Broken("wrapper %s:%s indexes args with `%s` (unmodelled)" % (target, marker, ix))
+            idxs.append(int(ix))
+        out.append(("%s:%s:%s" % (target, marker, fn), arity, idxs))
+    if len(out) < 20:
+        raise Broken("only %d hand-written wrapper closures found in register_fn.rs" % len(out))
+    return out
+
+
+def self_macro_receivers(src):
+    """the receiver extractions generated by impl_register_fn_self! (one impl per receiver kind)"""
+    d = macro_def(src, "impl_register_fn_self")
+    kinds = []
+    for k, pat in (("ref", r"Fn\(&SELF, \$\(\$param\),\*\)"), ("mutRef", r"Fn\(&mut SELF, \$\(\$param\),\*\)")):
+        if re.search(pat, d):
+            kinds.append(k)
+    if kinds != ["ref", "mutRef"]:
+        raise Broken("impl_register_fn_self! no longer generates both the &SELF and the &mut SELF wrapper: %s" % kinds)
+    for c in [m.start() for m in re.finditer(r"let f = move \|args", d)]:
+        seg = re.sub(r"\s+", " ", d[c:c + 1500])
+        f = seg.find("func(")
+        r = re.search(r"<SELF>::(as_ref|as_mut_ref|as_mut_ref_from_ref)\(&args\[0\]\)", seg)
+        if not r or r.start() > f:
+            raise Broken("impl_register_fn_self!: the receiver is not extracted from args[0] before the call")
+    return kinds
+
+
+def float_paths(src):
+    """f32 / f64: `from_f64!` (widening `as f64` on the way in) and `try_from_impl!(NumV => ..)` on the way out"""
+    into, frm = {}, {}
+    d = macro_def(src, "from_f64")
+    if d is None or not re.search(r"NumV\(\s*self as f64\s*\)", d):
+        raise Broken("from_f64! does not inject with `self as f64`")
+    for inv in invocations(src, "from_f64"):
+        for t in [x.strip() for x in inv.split(",") if x.strip()]:
+            into[t] = "asF64"
+    d = macro_def(src, "try_from_impl")
+    for inv in invocations(src, "try_from_impl"):
+        mm = re.match(r"\s*(\w+)\s*=>\s*(.*)", inv, re.S)
+        if mm and mm.group(1) == "NumV":
+            if not re.search(r"SteelVal::\$type\(x\) => Ok\(x\.clone\(\) as \$body\)", re.sub(r"\s+", " ", d)):
+                raise Broken("try_from_impl! is no longer `x.clone() as $body`")
+            for t in [x.strip() for x in mm.group(2).split(",") if x.strip()]:
+                frm[t] = "asCast"
+    for t in ("f32", "f64"):
+        b = find_block(src, r"impl\s+FromSteelVal\s+for\s+" + t + r"\s*\{", t)
+        if b is not None:
+            if t in frm:
+                raise Broken("two FromSteelVal impls for " + t)
+            frm[t] = "handWritten"
+    if set(into) != {"f32", "f64"} or set(frm) != {"f32", "f64"}:
+        raise Broken("float conversions changed: into %s from %s" % (into, frm))
+    if frm["f64"] != "asCast":
+        raise Broken("FromSteelVal for f64 is no longer the identity cast")
+    if frm["f32"] == "handWritten":
+        b = re.sub(r"\s+", " ", find_block(src, r"impl\s+FromSteelVal\s+for\s+f32\s*\{", "f32"))
+        if not (re.search(r"is_finite\(\)", b) and re.search(r"is_infinite\(\)|f32::MAX", b) and "ConversionError" in b):
+            raise Broken("cannot classify the hand-written FromSteelVal for f32: " + b[:200])
+        frm["f32"] = "checked"
+    return into, frm
+
+
+def unmodelled_ints(src):
+    """integer types with a conversion impl that the model does not have (i128)"""
+    for t in ("i128",):
+        for pat in (r"impl\s+From<%s>\s+for\s+SteelVal", r"impl\s+IntoSteelVal\s+for\s+%s\b", r"impl\s+FromSteelVal\s+for\s+%s\b"):
+            if re.search(pat % t, src):
+                raise Broken("a conversion impl for %s exists but is not modelled" % t)
+        for mac in ("from_for_isize", "try_from_int_impl", "try_from_impl", "from_f64"):
+            for inv in invocations(src, mac):
+                if re.search(r"\b%s\b" % t, inv):
+                    raise Broken("%s!(.. %s ..): not modelled" % (mac, t))
+    if re.search(r"impl\s+FromSteelVal\s+for\s+u128\b", src):
+        raise Broken("FromSteelVal for u128 exists but is not modelled (the model has injection only)")
+
+
 def free_policy(src):
     """how `LifetimeGuard::drop` (engine.rs) frees the nursery at the end of a lending call"""
     b = find_block(src, r"impl<'a>\s+Drop\s+for\s+LifetimeGuard<'a>\s*\{", "LifetimeGuard")
@@ -234,6 +348,26 @@ def free_policy(src):
     if re.search(r"OpaqueReferenceNursery::free_to\(\s*self\.mark\s*\)", flat):
         return "toMark"
     raise Broken("cannot classify how LifetimeGuard::drop frees the nursery: " + flat[:200])
+
+
+def drop_policy(src):
+    """`Drop for BorrowedObject` (gc.rs): does it release the parent's borrow flag unconditionally (as found), or only
+    when no reference derived from the dropped one is alive (child_borrow_flag clear and borrow_count zero)?"""
+    b = find_block(src, r"impl<T>\s+Drop\s+for\s+BorrowedObject<T>\s*\{", "BorrowedObject")
+    if b is None:
+        raise Broken("impl Drop for BorrowedObject not found in gc.rs")
+    flat = re.sub(r"\s+", " ", b)
+    st = flat.find("parent_borrow_flag .store(false")
+    if st < 0:
+        st = flat.find("parent_borrow_flag.store(false")
+    if st < 0:
+        raise Broken("Drop for BorrowedObject does not release the parent's borrow flag: " + flat[:200])
+    head = flat[:st]
+    if "child_borrow_flag" in head and "borrow_count" in head and "return" in head:
+        return "guarded"
+    if "child_borrow_flag" in head or "borrow_count" in head or "if " in head:
+        raise Broken("cannot classify the condition in Drop for BorrowedObject: " + flat[:300])
+    return "asFound"
 
 
 def option_none_via_from(src):
@@ -281,14 +415,15 @@ def tuple_length_checks(src):
     return out
 
 
-def lean(into, frm, regs, policy, optnone, tuples):
+def lean(into, frm, regs, policy, optnone, tuples, wrappers, f32from, droppol):
     L = ["/- GENERATED by translate/c20_convs.py from crates/steel-core/src/primitives.rs and",
          "   steel_vm/register_fn.rs on every run of checks/c20.py.  Do not edit. -/",
          "import SteelVerif.C20.Model", "namespace SteelVerif.C20", "",
          "def genTable : ConvTable where",
          "  intoL := [" + ", ".join("(.%s, .%s)" % (t, into[t]) for t in INTS if t in into) + "]",
          "  fromL := [" + ", ".join("(.%s, .%s)" % (t, frm[t]) for t in INTS if t in frm) + "]",
-         "  pairExact := %s" % ("true" if tuples[2] else "false"), "",
+         "  pairExact := %s" % ("true" if tuples[2] else "false"),
+         "  f32Checked := %s" % ("false" if f32from == "asCast" else "true"), "",
          "/-- (method-shaped, arity, args index read for each parameter) per macro invocation -/",
          "def genRegIdx : List (Bool × Nat × List Nat) := ["]
     L += ["  (%s, %d, [%s])," % ("true" if s else "false", a, ", ".join(map(str, ix))) for s, a, ix in regs]
@@ -296,7 +431,16 @@ def lean(into, frm, regs, policy, optnone, tuples):
     L += ["]", "", "/-- how `LifetimeGuard::drop` frees the nursery -/",
           "def genFreePolicy : Policy := .%s" % policy, "",
           "/-- what `impl From<Option<T>> for SteelVal` maps `None` to -/",
-          "def genOptionNoneViaFrom : Bool := %s" % optnone, "", "end SteelVerif.C20", ""]
+          "def genOptionNoneViaFrom : Bool := %s" % optnone, "",
+          "/-- `FromSteelVal for f32` is the unchecked narrowing cast `x as f32` (`try_from_impl!(NumV => f64, f32)`) -/",
+          "def genF32FromIsCast : Bool := %s" % ("true" if f32from == "asCast" else "false"), "",
+          "/-- `Drop for BorrowedObject` keeps the parent's borrow flag while a derived reference is alive (the repair of K20d) -/",
+          "def genDropGuarded : Bool := %s" % ("true" if droppol == "guarded" else "false"), "",
+          "/-- every hand-written wrapper closure of register_fn.rs: (target:marker:fn, arity checked, args indices read) -/",
+          "def genWrappers : List (String × Nat × List Nat) := ["]
+    L += ["  (\"%s\", %d, [%s])," % (k, a, ", ".join(map(str, ix))) for k, a, ix in wrappers]
+    L[-1] = L[-1].rstrip(",")
+    L += ["]", "", "end SteelVerif.C20", ""]
     return "\n".join(L)
 
 
@@ -308,13 +452,18 @@ def main():
         reg = strip_comments(open(repo + "/crates/steel-core/src/steel_vm/register_fn.rs").read())
         into, frm = conv_tables(prim)
         regs = reg_tables(reg)
+        wrappers = wrapper_table(reg)
+        receivers = self_macro_receivers(reg)
+        finto, ffrom = float_paths(prim)
+        unmodelled_ints(prim)
         optnone = option_none_via_from(prim)
         tuples = tuple_length_checks(strip_comments(open(repo + "/crates/steel-core/src/conversions.rs").read()))
         policy = free_policy(strip_comments(open(repo + "/crates/steel-core/src/steel_vm/engine.rs").read()))
+        droppol = drop_policy(strip_comments(open(repo + "/crates/steel-core/src/gc.rs").read()))
     except (Broken, OSError, ValueError) as e:
         print("c20_convs: %s" % e, file=sys.stderr)
         sys.exit(2)
-    text = lean(into, frm, regs, policy, optnone, tuples)
+    text = lean(into, frm, regs, policy, optnone, tuples, wrappers, ffrom["f32"], droppol)
     try:
         old = open(out).read()
     except OSError:
@@ -323,8 +472,10 @@ def main():
         with open(out, "w") as f:
             f.write(text)
     print(json.dumps({"into": into, "from": frm,
-                      "register_idx": [[s, a, ix] for s, a, ix in regs], "free_policy": policy, "option_none_via_from": optnone,
+                      "register_idx": [[s, a, ix] for s, a, ix in regs], "free_policy": policy, "drop_policy": droppol, "option_none_via_from": optnone,
                       "tuple_length_checked": {str(k): v for k, v in tuples.items()},
+                      "hand_written_wrappers": [[k, a, ix] for k, a, ix in wrappers],
+                      "self_macro_receivers": receivers, "float_into": finto, "float_from": ffrom,
                       "changed": old != text}))
 
 
